@@ -1,6 +1,9 @@
 package main
 
 import (
+	"bufio"
+	"os"
+	"os/exec"
 	"fmt"
 	"math/rand"
 	"sort"
@@ -95,6 +98,9 @@ func c20Queries(rng *rand.Rand) c20Query {
 		{sql: "SELECT upper(k) AS uk, max(v) AS mx FROM stream WHERE v >= 0 GROUP BY upper(k), CountingWindow(" + N + ")", kind: "groupfn", window: n, group: []string{"upper(k)"}},
 		{sql: "SELECT k, count(*) AS c, sum(v) AS s FROM stream GROUP BY k, CountingWindow(" + N + ")", kind: "window", window: n, group: []string{"k"}},
 		{sql: "SELECT count(*) AS c, sum(v) AS s FROM stream GROUP BY CountingWindow(" + N + ")", kind: "window", window: n},
+		// expressions over two bare columns: how they are evaluated depends on the row's value types
+		{sql: "SELECT id, v + w AS s FROM stream", kind: "expr"},
+		{sql: "SELECT k, sum(v + w) AS s, max(v + w) AS m, count(*) AS c FROM stream GROUP BY k, CountingWindow(" + N + ")", kind: "window", window: n, group: []string{"k"}},
 		{sql: "SELECT s.id, m.loc FROM stream s JOIN meta m ON s.dev = m.dev", kind: "join", join: true},
 		{sql: "SELECT s.id, m.loc FROM stream s LEFT JOIN meta m ON s.dev = m.dev WHERE s.v > 1", kind: "join", join: true},
 		{sql: "SELECT s.id, m.loc, lag(s.v) AS p FROM stream s JOIN meta m ON s.dev = m.dev", kind: "join-analytic", join: true, analytic: []string{"p"}},
@@ -168,7 +174,7 @@ func c20Template(rng *rand.Rand) map[string]interface{} {
 
 // c20Row: the columns the query pool reads (id, v, k, dev) plus random nested baggage.
 func c20Row(rng *rand.Rand, id int) map[string]interface{} {
-	row := map[string]interface{}{"id": id, "v": rng.Intn(40), "k": c20Keys[rng.Intn(len(c20Keys))], "g": c20Keys[rng.Intn(len(c20Keys))], "dev": c20Devs[rng.Intn(len(c20Devs))]}
+	row := map[string]interface{}{"id": id, "v": rng.Intn(40), "w": rng.Intn(10), "k": c20Keys[rng.Intn(len(c20Keys))], "g": c20Keys[rng.Intn(len(c20Keys))], "dev": c20Devs[rng.Intn(len(c20Devs))]}
 	switch rng.Intn(8) {
 	case 0:
 		row["v"] = nil
@@ -210,7 +216,19 @@ func (c20) Gen(rng *rand.Rand, tier string, idx int) Case {
 	var c Case
 	qa := c20Queries(rng)
 	qb := c20Queries(rng)
-	if k := rng.Intn(8); k < 2 {
+	skew := rng.Intn(6) == 0
+	if skew {
+		// same expression text over bare columns in both instances, differently typed rows (see below)
+		n := 1 + rng.Intn(3)
+		N := strconv.Itoa(n)
+		qa = []c20Query{
+			{sql: "SELECT id, v + w AS s FROM stream", kind: "expr"},
+			{sql: "SELECT k, sum(v + w) AS s, max(v + w) AS m, count(*) AS c FROM stream GROUP BY k, CountingWindow(" + N + ")", kind: "window", window: n, group: []string{"k"}},
+			{sql: "SELECT count(*) AS c, sum(v + w) AS s FROM stream GROUP BY CountingWindow(" + N + ")", kind: "window", window: n},
+		}[rng.Intn(3)]
+		qb = qa
+		c.Stat = append(c.Stat, "pair-same-sql")
+	} else if k := rng.Intn(8); k < 2 {
 		qb = qa // same SQL in both instances
 		c.Stat = append(c.Stat, "pair-same-sql")
 	} else if k < 5 { // two members of one family: near-identical expression texts
@@ -243,6 +261,19 @@ func (c20) Gen(rng *rand.Rand, tier string, idx int) Case {
 	for i := 0; i < 3+rng.Intn(5); i++ {
 		rb = append(rb, c20Row(rng, 200+i))
 	}
+	if skew || rng.Intn(5) == 0 {
+		// type skew: instance A sees its numeric columns as decimal strings, instance B as numbers —
+		// anything the process remembers about "how to evaluate this expression text" from A's rows
+		// would change B's results
+		for _, r := range ra {
+			for _, col := range []string{"v", "w"} {
+				if x, ok := r[col].(int); ok {
+					r[col] = strconv.Itoa(x)
+				}
+			}
+		}
+		c.Stat = append(c.Stat, "paired-type-skew")
+	}
 	bits := make([]byte, len(ra)+len(rb))
 	na, nb := 0, 0
 	for i := range bits {
@@ -257,6 +288,12 @@ func (c20) Gen(rng *rand.Rand, tier string, idx int) Case {
 	op := append([]string{"paired"}, c20RowsTok(ra)...)
 	op = append(op, c20RowsTok(rb)...)
 	temp := []string{"cold", "warm"}[rng.Intn(2)] // paired run on empty caches, or on the caches the solo runs left behind
+	if skew {
+		temp = "fresh" // a process of its own
+		if rng.Intn(2) == 0 { // instance A (string-typed) sees all its rows first
+			bits = []byte(strings.Repeat("a", len(ra)) + strings.Repeat("b", len(rb)))
+		}
+	}
 	c.Stat = append(c.Stat, "paired-"+temp)
 	c.Ops = append(c.Ops, append(op, string(bits), temp))
 	return c
@@ -429,6 +466,147 @@ func c20RunSolo(q c20Query, rows []map[string]interface{}) ([]string, bool) {
 	return in.outputs(), ok
 }
 
+// c20RunSoloFresh: the "alone" baseline in a FRESH PROCESS (the harness binary re-executes itself), so that
+// process-wide state no reset hook knows about cannot leak from an earlier run into the baseline.
+func c20RunSoloFresh(q c20Query, rows []map[string]interface{}) ([]string, bool) {
+	exe, err := os.Executable()
+	if err != nil {
+		return c20RunSolo(q, rows)
+	}
+	args := append([]string{"c20solo", hx(q.sql)}, q.tokens("q")[1:]...)
+	args = append(args, "--")
+	args = append(args, c20RowsTok(rows)...)
+	cmd := exec.Command(exe, args...)
+	outb, err := cmd.Output()
+	if err != nil {
+		return []string{"solo-process-failed"}, false
+	}
+	lines := strings.Split(strings.TrimRight(string(outb), "\n"), "\n")
+	if len(lines) == 0 {
+		return nil, false
+	}
+	ok := lines[0] == "ok"
+	var out []string
+	for _, l := range lines[1:] {
+		out = append(out, unhx(l))
+	}
+	return out, ok
+}
+
+func init() {
+	subcommands["c20solo"] = func(w *bufio.Writer, args []string) {
+		sql := unhx(args[0])
+		sep := 1
+		for sep < len(args) && args[sep] != "--" {
+			sep++
+		}
+		q := c20ParseQuery(sql, args[1:sep])
+		rows, _ := c20DecRows(args[sep+1:])
+		out, ok := c20RunSolo(q, rows)
+		if ok {
+			fmt.Fprintln(w, "ok")
+		} else {
+			fmt.Fprintln(w, "not-quiescent")
+		}
+		for _, l := range out {
+			fmt.Fprintln(w, hx(l))
+		}
+	}
+}
+
+// c20RunPaired: both instances in this process, rows interleaved as `bits` says.
+func c20RunPaired(qa, qb c20Query, ra, rb []map[string]interface{}, bits string) (pa, pb []string, okA, okB bool) {
+	okA, okB = true, true
+	ia, ib := c20New(qa), c20New(qb)
+	ai, bi := 0, 0
+	for _, w := range []byte(bits) {
+		if w == 'a' && ai < len(ra) && ia.err == nil {
+			ia.feed(c05CopyRow(ra[ai]))
+			ai++
+		} else if w == 'b' && bi < len(rb) && ib.err == nil {
+			ib.feed(c05CopyRow(rb[bi]))
+			bi++
+		}
+	}
+	pa, pb = []string{"execerr"}, []string{"execerr"}
+	if ia.err == nil {
+		if qa.window > 0 {
+			okA = ia.quiesce(0, len(ra))
+		}
+		pa = ia.outputs()
+	}
+	if ib.err == nil {
+		if qb.window > 0 {
+			okB = ib.quiesce(0, len(rb))
+		}
+		pb = ib.outputs()
+	}
+	ia.s.Stop()
+	ib.s.Stop()
+	return
+}
+
+func c20RunPairedFresh(qa, qb c20Query, ra, rb []map[string]interface{}, bits string) (pa, pb []string, ok bool) {
+	exe, err := os.Executable()
+	if err != nil {
+		return []string{"no-exe"}, []string{"no-exe"}, false
+	}
+	args := append([]string{"c20pair", hx(qa.sql)}, qa.tokens("q")[1:]...)
+	args = append(args, "--", hx(qb.sql))
+	args = append(args, qb.tokens("q")[1:]...)
+	args = append(args, "--")
+	args = append(args, c20RowsTok(ra)...)
+	args = append(args, c20RowsTok(rb)...)
+	args = append(args, bits)
+	outb, err := exec.Command(exe, args...).Output()
+	if err != nil {
+		return []string{"pair-process-failed"}, []string{"pair-process-failed"}, false
+	}
+	lines := strings.Split(strings.TrimRight(string(outb), "\n"), "\n")
+	ok = len(lines) > 0 && lines[0] == "ok"
+	cur := &pa
+	for _, l := range lines[1:] {
+		if l == "--" {
+			cur = &pb
+			continue
+		}
+		*cur = append(*cur, unhx(l))
+	}
+	return
+}
+
+func init() {
+	subcommands["c20pair"] = func(w *bufio.Writer, args []string) {
+		cut := func(a []string) ([]string, []string) {
+			for i, x := range a {
+				if x == "--" {
+					return a[:i], a[i+1:]
+				}
+			}
+			return a, nil
+		}
+		a, rest := cut(args)
+		b, rest := cut(rest)
+		qa := c20ParseQuery(unhx(a[0]), a[1:])
+		qb := c20ParseQuery(unhx(b[0]), b[1:])
+		ra, rest := c20DecRows(rest)
+		rb, rest := c20DecRows(rest)
+		pa, pb, okA, okB := c20RunPaired(qa, qb, ra, rb, rest[0])
+		if okA && okB {
+			fmt.Fprintln(w, "ok")
+		} else {
+			fmt.Fprintln(w, "not-quiescent")
+		}
+		for _, l := range pa {
+			fmt.Fprintln(w, hx(l))
+		}
+		fmt.Fprintln(w, "--")
+		for _, l := range pb {
+			fmt.Fprintln(w, hx(l))
+		}
+	}
+}
+
 func (c20) Exec(c Case) [][][]string {
 	var qa, qb c20Query
 	var sqlA, sqlB string
@@ -495,37 +673,26 @@ func (c20) Exec(c Case) [][][]string {
 			ra, rest := c20DecRows(op[1:])
 			rb, rest := c20DecRows(rest)
 			bits := rest[0]
-			soloA, okA := c20RunSolo(qa, ra)
-			soloB, okB := c20RunSolo(qb, rb)
-			if len(rest) < 2 || rest[1] != "warm" {
-				functions.VerifResetExprCaches()
+			soloA, okA := c20RunSoloFresh(qa, ra)
+			soloB, okB := c20RunSoloFresh(qb, rb)
+			temp := ""
+			if len(rest) >= 2 {
+				temp = rest[1]
 			}
-			ia, ib := c20New(qa), c20New(qb)
-			ai, bi := 0, 0
-			for _, w := range []byte(bits) {
-				if w == 'a' && ai < len(ra) && ia.err == nil {
-					ia.feed(c05CopyRow(ra[ai]))
-					ai++
-				} else if w == 'b' && bi < len(rb) && ib.err == nil {
-					ib.feed(c05CopyRow(rb[bi]))
-					bi++
+			var pa, pb []string
+			if temp == "fresh" {
+				// the paired run too in a process of its own: nothing an earlier case evaluated is remembered
+				var okP bool
+				pa, pb, okP = c20RunPairedFresh(qa, qb, ra, rb, bits)
+				okA, okB = okA && okP, okB && okP
+			} else {
+				if temp != "warm" {
+					functions.VerifResetExprCaches()
 				}
+				var okPA, okPB bool
+				pa, pb, okPA, okPB = c20RunPaired(qa, qb, ra, rb, bits)
+				okA, okB = okA && okPA, okB && okPB
 			}
-			pa, pb := []string{"execerr"}, []string{"execerr"}
-			if ia.err == nil {
-				if qa.window > 0 {
-					okA = ia.quiesce(0, len(ra)) && okA
-				}
-				pa = ia.outputs()
-			}
-			if ib.err == nil {
-				if qb.window > 0 {
-					okB = ib.quiesce(0, len(rb)) && okB
-				}
-				pb = ib.outputs()
-			}
-			ia.s.Stop()
-			ib.s.Stop()
 			lines := [][]string{{"pairedA", btok(strings.Join(pa, "\n") == strings.Join(soloA, "\n"))},
 				{"pairedB", btok(strings.Join(pb, "\n") == strings.Join(soloB, "\n"))}}
 			if !okA || !okB {
